@@ -7,7 +7,7 @@ import numpy as np
 from .. import coqio as cq
 from .. import gen
 from .. import gmmtrain as gt
-from ..impl import hexlist, make_gmm
+from ..impl import GMMMachine, make_gmm, hexlist, make_gmm
 
 SWITCHES = list(itertools.product([True, False], repeat=3))
 D2 = "D2-map-variance-unsquared-prior-mean"
@@ -111,6 +111,28 @@ def run(chk):
             if moved and not np.allclose(np.asarray(m2.means)[1:], np.asarray(prior2.means)[1:], rtol=1e-12, atol=0):
                 chk.fail("a component that receives no evidence (after having been adapted on an earlier batch) does not keep the prior's mean",
                          dict(ctx, batch1=hexlist(b1), batch2=hexlist(b2), prior_mu=hexlist(pmu)))
+        # ---- the settings in force are the machine's CURRENT ones: a machine configured differently at construction (ML trainer, other
+        #      relevance / ratio / switches / cap) and then re-configured through its attributes or set_params adapts exactly like one built that way
+        if i % 3 == 2:
+            ref, _ = gt.build_machine(dict(cfg, cap=K))
+            ref.fit(X)
+            how = r.choice(["attributes", "set_params"])
+            late = GMMMachine(n_gaussians=C, ubm=make_gmm(w, mu, var, thr=thr), trainer="ml", map_alpha=0.9, map_relevance_factor=7.0,
+                              update_means=not sw[0], update_variances=not sw[1], update_weights=not sw[2],
+                              mean_var_update_threshold=eps, max_fitting_steps=K + 3, convergence_threshold=0.5)
+            final = dict(trainer="map", map_alpha=alpha, map_relevance_factor=relevance, update_means=sw[0], update_variances=sw[1],
+                         update_weights=sw[2], max_fitting_steps=K, convergence_threshold=None)
+            if how == "attributes":
+                for k_, v_ in final.items():
+                    setattr(late, k_, v_)
+            else:
+                late.set_params(**final)
+            late.fit(X)
+            chk.count(1, key=("reconfigured", how, sw))
+            if not (np.allclose(late.means, ref.means, rtol=1e-12, atol=0) and np.allclose(late.variances, ref.variances, rtol=1e-12, atol=0)
+                    and np.allclose(late.weights, ref.weights, rtol=1e-12, atol=0)):
+                chk.fail("a machine re-configured for MAP adaptation after construction (via %s) adapts differently from one constructed with the same settings" % how,
+                         dict(ctx, reconfigured_via=how, got_means=hexlist(late.means), want_means=hexlist(ref.means)))
         # prior untouched
         if not (np.array_equal(prior.means, p0.means) and np.array_equal(prior.variances, p0.variances) and np.array_equal(prior.weights, p0.weights)):
             chk.fail("the prior (UBM) was modified by MAP training", ctx)
